@@ -111,6 +111,36 @@ func checkClock(t *testing.T, c ClockCase) (v harness.Verdict) {
 		}
 		return l.inst.Post(ep, body(l.w.ders())).Status
 	}
+	// control: the same chain on an instance without expiry filter. A refusal there is a chain problem,
+	// not a clock problem; it gets the chain sig and the item is left out of the clock assertions.
+	kept := ls[:0]
+	for i, l := range ls {
+		if l.it.Mode == "none" || !l.ok {
+			kept = append(kept, l)
+			continue
+		}
+		f, err := os.CreateTemp("", "c02-roots-*.pem")
+		if err != nil {
+			t.Fatalf("temp file: %v", err)
+		}
+		f.Write(pemBundle(l.w.trusted))
+		f.Close()
+		ctl, err := ctfex.New(ctfex.Opts{LogKey: keys.Pick("p256", 0), Backend: reflog.New(6962, 1), Cfg: func(cfg *configpb.LogConfig) { cfg.RootsPemFile = []string{f.Name()} }})
+		os.Remove(f.Name())
+		if err != nil {
+			t.Fatalf("instance: %v", err)
+		}
+		ep := "/ct/v1/add-chain"
+		if l.it.H.PreChain {
+			ep = "/ct/v1/add-pre-chain"
+		}
+		if st := ctl.Post(ep, body(l.w.ders())).Status; st != 200 {
+			v.Failf(l.w.refusedSig(ropt{c: &Opt{}}, false), "item %d: control instance without expiry filter answered %d; %s", i, st, l.w.describe())
+			continue
+		}
+		kept = append(kept, l)
+	}
+	ls = kept
 	// phase 1 (best effort): the leaf has not expired yet. Asserted only if the clock read after the
 	// response is still before NotAfter, so a delay can only skip the assertion.
 	for i, l := range ls {
@@ -142,7 +172,7 @@ func checkClock(t *testing.T, c ClockCase) (v harness.Verdict) {
 		case st != 200 && want && l.it.Mode == "unexpired":
 			v.Failf("clock-frozen-refused-expired-leaf", "item %d: reject_unexpired instance set up %s ago answered %d for a leaf that expired at %s (at least 1.2 s ago): expiry is not judged at submission time; %s", i, age, st, notAfter.UTC().Format(time.RFC3339), l.w.describe())
 		case st != 200 && want:
-			v.Failf("refused-valid-chain", "item %d (no expiry filter): status %d; %s", i, st, l.w.describe())
+			v.Failf(l.w.refusedSig(ropt{c: &Opt{}}, false), "item %d (no expiry filter): status %d; %s", i, st, l.w.describe())
 		}
 		v.Class(fmt.Sprintf("after:%s:%d", l.it.Mode, st))
 	}
